@@ -37,8 +37,13 @@ package buffer
 //@   trusted
 //@   ensures len(result) == 0
 
+// bufsize(r): the size of the reader's internal buffer (bufio: at least 16 bytes).  Peek(n) with n above it can
+// never succeed (bufio.ErrBufferFull), whatever the stream holds: a function that is to read its object through
+// EVERY buffered reader (property C08, "any chunking") owes n <= Size() (finding F74)
+//@ ghost bufsize(r) int
 //@ afunc Reader.Peek
 //@   trusted bufio.Reader.Peek: fewer than n bytes come with an error
+//@   requires n <= 16 || n <= bufsize(this)
 //@   ensures 0 <= len(result0) && len(result0) <= n && implies(isnil(result1), len(result0) == n)
 
 //@ afunc Reader.Discard
@@ -47,7 +52,7 @@ package buffer
 
 //@ afunc Reader.Size
 //@   trusted
-//@   ensures 0 <= result
+//@   ensures 0 <= result && result == bufsize(this)
 
 // ---- fixed-size writes: on success exactly the size of the value ----
 //@ afunc Write
